@@ -191,6 +191,10 @@ func VerifHarness_C09_endpoint() {
 	add(rr.WorkloadEndpointToIptablesChains("cali1234", nil, true, tpg, profIDs, nil))
 
 	p := vNewPkt()
+	// MarkDrop is set only by a deny rule immediately before its drop action and the mark mask is
+	// reserved to Calico, so no packet enters an endpoint chain with it set (the other Calico bits
+	// are free here: the chain clears accept/pass itself and scratch bits are written before use)
+	verifAssume(p.mark&0x800 == 0)
 	sets := &vSets{m: map[string]bool{}}
 	want := verifRefVerdict(tiers, prof, hasProfile, p)
 	top := EndpointChainName(WorkloadToEndpointPfx, "cali1234", iptables.MaxChainNameLength)
